@@ -312,8 +312,8 @@ def shards(tier, seed):
         yys = range(100)
         hhs = range(100)
     else:
-        yys = sorted(bound_yy | {(seed * 7 + i * 13) % 100 for i in range(6)})
-        hhs = sorted(bound_hh | {(seed * 5 + i * 11) % 100 for i in range(6)})
+        yys = sorted(bound_yy | {(seed * 7 + i * 13) % 100 for i in range(12)})
+        hhs = sorted(bound_hh | {(seed * 5 + i * 11) % 100 for i in range(12)})
     s += [{'kind': 'ymd6', 'yy': y} for y in yys]
     s += [{'kind': 'hhmmss', 'hh': h} for h in hhs]
     nh = 8 if tier == 'thorough' else 4
